@@ -16,7 +16,27 @@ reg('C17', engine='h_simplify',
          'objective (length / clearance / affine cost-field integral) drawn per application; non-trivial = input of >= 3 '
          'states in a world with >= 1 obstacle on which at least one routine changed the path; distinct = hash of the input '
          'path states and world',
-    floors={'quick': {}, 'thorough': {}},
+    floors={'quick': {'c17_inputs': 1000, 'c17_routine_runs': 12000, 'c17_dense_samples': 9000000,
+                      'c17_length_checks': 2400, 'c17_cost_checks_clearance': 1300, 'c17_cost_checks_integral': 1000,
+                      'c17_cost_checks_length': 900, 'c17_simplify_true': 2000, 'c17_interpolate_count_checks': 900,
+                      'c17_densify_runs': 3000, 'c17_hybrid_checks': 1000, 'c17_hybrid_strictly_better': 400,
+                      'c17_in_RRT': 80, 'c17_in_RRTConnect': 90, 'c17_in_KPIECE1': 80, 'c17_in_long': 120,
+                      'c17_in_total_length_zero': 80, 'c17_in_with_zero_length_segment': 200, 'c17_space_R2': 250,
+                      'c17_space_R3': 150, 'c17_space_SE2': 190, 'c17_space_Compound': 180, 'c17_space_Dubins': 170,
+                      'c17_last_replaced_by_goal_state': 450, 'c17_changed_partialShortcutPath': 700,
+                      'c17_changed_perturbPath': 130, 'c17_changed_findBetterGoal': 500,
+                      'c17_interpolate_count_zero_length_path': 40},
+            'thorough': {'c17_inputs': 6000, 'c17_routine_runs': 72000, 'c17_dense_samples': 54000000,
+                      'c17_length_checks': 14400, 'c17_cost_checks_clearance': 7800,
+                      'c17_cost_checks_integral': 6000, 'c17_cost_checks_length': 5400, 'c17_simplify_true': 12000,
+                      'c17_interpolate_count_checks': 5400, 'c17_densify_runs': 18000, 'c17_hybrid_checks': 6000,
+                      'c17_hybrid_strictly_better': 2400, 'c17_in_RRT': 480, 'c17_in_RRTConnect': 540,
+                      'c17_in_KPIECE1': 480, 'c17_in_long': 720, 'c17_in_total_length_zero': 480,
+                      'c17_in_with_zero_length_segment': 1200, 'c17_space_R2': 1500, 'c17_space_R3': 900,
+                      'c17_space_SE2': 1140, 'c17_space_Compound': 1080, 'c17_space_Dubins': 1020,
+                      'c17_last_replaced_by_goal_state': 2700, 'c17_changed_partialShortcutPath': 4200,
+                      'c17_changed_perturbPath': 780, 'c17_changed_findBetterGoal': 3000,
+                      'c17_interpolate_count_zero_length_path': 240}},
     level_text='Held on the executions produced: for every generated (world, valid input path, routine, parameters, '
                'objective) the before/after oracle of DESIGN 4/C17 found first/last state, dense validity, length/cost '
                'monotonicity, simplify()=>check(), densifier vertex/count/length and hybrid-cost clauses satisfied.',
@@ -41,7 +61,22 @@ reg('C18', engine='h_ptc', variants={'quick': ['asan'], 'thorough': ['asan', 'ts
          'polled); an exact-solution history on a problem definition; a cost sequence through the cost-convergence '
          'condition; a periodic condition over logical steps with copies, a second evaluating thread, terminate() and '
          'destruction; every evaluation is compared with the reference model; non-trivial = history of >= 2 steps',
-    floors={'quick': {}, 'thorough': {}},
+    floors={'quick': {'c18_pred_evals': 200000, 'c18_nest_evals': 4000000, 'c18_nesting_depth_5': 700,
+                      'c18_terminate_same_thread': 6000, 'c18_terminate_second_thread': 600,
+                      'c18_steps_concurrent_with_terminate': 2000, 'c18_evals_after_terminate': 300000,
+                      'c18_iter_n_values_run': 20000, 'c18_iter_n_edge_values_run': 50, 'c18_iter_resets': 50000,
+                      'c18_timed_runs': 1300, 'c18_timed_became_true': 1300, 'c18_timed_false_evals': 100000,
+                      'c18_exact_evals': 28000, 'c18_exact_clears': 4000, 'c18_costconv_sequences': 1300,
+                      'c18_costconv_fired': 900, 'c18_periodic_cases': 1300, 'c18_periodic_polls': 15000,
+                      'c18_periodic_second_thread_cases': 600, 'c18_periodic_destroy_checks': 1300},
+            'thorough': {'c18_pred_evals': 800000, 'c18_nest_evals': 16000000, 'c18_nesting_depth_5': 2800,
+                      'c18_terminate_same_thread': 24000, 'c18_terminate_second_thread': 2400,
+                      'c18_steps_concurrent_with_terminate': 8000, 'c18_evals_after_terminate': 1200000,
+                      'c18_iter_n_values_run': 80000, 'c18_iter_n_edge_values_run': 200, 'c18_iter_resets': 200000,
+                      'c18_timed_runs': 5200, 'c18_timed_became_true': 5200, 'c18_timed_false_evals': 400000,
+                      'c18_exact_evals': 112000, 'c18_exact_clears': 16000, 'c18_costconv_sequences': 5200,
+                      'c18_costconv_fired': 3600, 'c18_periodic_cases': 5200, 'c18_periodic_polls': 60000,
+                      'c18_periodic_second_thread_cases': 2400, 'c18_periodic_destroy_checks': 5200}},
     level_text='Held on the executions produced: every evaluation of every generated termination-condition history agreed '
                'with the reference model of its kind (DESIGN 4/C18); timing clauses with 50 ms slack on the steady clock.',
     technique='runtime monitoring: reference models over scripted traces, logical-step monitor for the periodic thread; '
